@@ -488,6 +488,21 @@ def pacing():
                 c = b.dial_ok()
                 b.open(c).ka(c).adv(1)
                 out.append(b.tag("pace", "seq").build())
+    # many refusals in a row: the spacing stays the configured idle-hold time (no back-off, no speed-up)
+    for ih, cr in ((1, 10), (0.5, 2)):
+        b = Sb("pace-refuse-long-%s-%s" % (ih, cr), [peer(idleHold=sec(ih), connRetry=sec(cr))])
+        b.start()
+        for _ in range(10):
+            b.dial_refuse()
+            b.advu(sec(ih) - 1).advu(1)
+        c = b.dial_ok()
+        b.open(c).ka(c).adv(1).rclose(c).advu(sec(ih) - 1).advu(1)
+        for _ in range(3):
+            b.dial_refuse()
+            b.advu(sec(ih) - 1).advu(1)
+        c = b.dial_ok()
+        b.open(c).ka(c).adv(1)
+        out.append(b.tag("pace").build())
     # passive peers never dial; inbound flap then redial
     b = Sb("pace-passive", [peer(passive=True)])
     b.start().adv(30)
